@@ -56,6 +56,15 @@ def parseCapPairs (names : Array String) : List Nat → List (String × Nat)
 /-- Does the query text contain an alternation or a `?`/`*` quantifier (parts that need not match)? -/
 def optionalParts (q : String) : Bool := q.toList.any fun c => c == '[' || c == '?' || c == '*'
 
+/-- Is there an anchor whose preceding sibling pattern carries no capture (`(x) . (y)`)? -/
+def anchorAfterUncaptured (q : String) : Bool :=
+  let toks := (tokenize (q.length + 1) q.toList #[]).toList
+  let rec go : List Tok → Bool
+    | a :: .dot :: rest => (a == .rp || a == .rb || a == .under || (match a with | .str _ => true | _ => false)) || go (.dot :: rest)
+    | _ :: rest => go rest
+    | [] => false
+  go toks
+
 def runCase (s : St) : String :=
   let tail := s!"compiled={s.compiled.getD false} haserror={s.hasError}"
   match buildVT s.nodes.toList with
@@ -82,7 +91,7 @@ def runCase (s : St) : String :=
         else if !quant && !completeB impl model then
           let bad := model.filter fun x => countOf x model > countOf x impl
           let subsumed := bad.all fun x => impl.any fun y => y.1 == x.1 && y != x && subBag x.2 y.2
-          let kind := if subsumed then "incomplete-subsumed" else if (s.query.splitOn " . ").length > 1 then "incomplete-anchor" else "incomplete"
+          let kind := if subsumed then "incomplete-subsumed" else if anchorAfterUncaptured s.query then "incomplete-anchor-uncaptured" else "incomplete"
           s!"{s.id} judge=FAIL {kind} first={repr bad.head!} {info}"
         else s!"{s.id} judge=ok {info}"
       | _ =>
